@@ -1,4 +1,4 @@
-#!/usr/bin/env python3
+#!/venv/bin/python
 """Regenerate /verif/MANIFEST.json from the SPEC dictionaries of harness/gen/Cxx.py (one source of truth)."""
 import importlib
 import json
@@ -14,7 +14,9 @@ for p in props:
     pid = p["id"]
     try:
         spec = importlib.import_module(f"harness.gen.{pid}").SPEC
-    except ModuleNotFoundError:
+    except ModuleNotFoundError as e:
+        if e.name != f"harness.gen.{pid}":
+            raise
         na.append({"property_id": pid, "reason": "check not built yet in this round (planned: Lean model + theorems + correspondence, DESIGN.md section 4)"})
         continue
     if spec.get("not_applicable"):
